@@ -49,11 +49,16 @@ struct telem {
 };
 #define MAGIC 0x7ee7ee7ee7ee7ee7ull
 
+/* every tree has a private pointer of its own that tells the comparison function which way round it orders; the
+ * pointer belongs to the tree OBJECT and moves with it on swap */
+struct tord { int dir; };
 struct mtree {
     int n;
     struct telem *e[MAXN];
     int since_clear;
+    struct tord *ord;
 };
+static struct tord tords[4];
 
 static struct cstl_bintree bt[2];
 static struct cstl_rbtree rb[2];
@@ -99,6 +104,16 @@ static const char *ctx_of(int t)
         sim_violation(_k, __VA_ARGS__); } while (0)
 #define VIOL(t, oracle, ...) VIOLP(prop_of(t), oracle, __VA_ARGS__)
 
+/* element HANDLES: what the caller hands to the library need not be the start of the structure. In some runs the
+ * handle of an element is an address past both sets of node members, so every node offset given to cstl_*_init()
+ * is "negative" (a size_t close to SIZE_MAX); in others it lies 2^31 or 2^32 bytes BEFORE the structure (an element
+ * type with a huge payload in front of its node member: offsets just above 2^31 / 2^32). The library never looks
+ * through a handle, it only adds and subtracts the offset - which goes wrong if that is done in less than 64 bits */
+static size_t g_hnd;
+#define HND(e) ((void *)((uintptr_t)(e) + g_hnd))
+#define ELM(h) ((struct telem *)((uintptr_t)(h) - g_hnd))
+#define ELMN(h) ((h) ? ELM(h) : NULL)
+
 static int cmp_plain(const void *a, const void *b, void *p)
 {
     const struct telem *x = a, *y = b;
@@ -114,8 +129,8 @@ static int reentrant;
 
 static int cmp_key(const void *a, const void *b, void *p)
 {
-    const struct telem *x = a, *y = b;
-    (void)p;
+    const struct telem *x = ELM(a), *y = ELM(b);
+    const struct tord *to = p;
     if (reentrant) {
         CB_ENTER();
         struct telem pr; const struct telem *fx, *fy;
@@ -128,7 +143,7 @@ static int cmp_key(const void *a, const void *b, void *p)
             sim_violation("C01/reentrant_lookup/compare/aux-tree", "a lookup in an independent tree, made from inside a comparison callback, returned the wrong element");
         CB_LEAVE();
     }
-    return sim_cmp((x->key > y->key) - (x->key < y->key));
+    return sim_cmp((to ? to->dir : 1) * ((x->key > y->key) - (x->key < y->key)));
 }
 
 static struct telem *new_elem(int key, int t)
@@ -166,7 +181,7 @@ static int visit_cb(const void *e, cstl_bintree_visit_order_t ord, void *p)
         g_inlib = 0;
         if (nested_count < 64) sim_violation("C01/reentrant_walk/foreach/aux-tree", "a nested traversal of an independent 64-element tree made %d visits", nested_count);
     }
-    if (nvlog < MAXLOG) { vlogv[nvlog].e = e; vlogv[nvlog].ord = (int)ord; }
+    if (nvlog < MAXLOG) { vlogv[nvlog].e = ELM(e); vlogv[nvlog].ord = (int)ord; }
     nvlog++;
     if (v_stop_at > 0 && nvlog == v_stop_at) r = v_stop_val;
     CB_LEAVE();
@@ -214,7 +229,7 @@ static int audit_node(int t, const struct cstl_bintree_node *n, const struct cst
     a_count++;
     if (n->p != parent) VIOL(t, "parent_link", "tree %d: parent link of element %d does not point at its parent", t, e->id);
     lh = audit_node(t, n->l, n, depth + 1);
-    if (a_have_prev && a_prev_key > e->key)
+    if (a_have_prev && mt[t].ord->dir * a_prev_key > mt[t].ord->dir * e->key)
         VIOL(t, "order", "tree %d: in-order walk decreases at element %d (%d after %d)", t, e->id, e->key, a_prev_key);
     a_prev_key = e->key; a_have_prev = 1;
     rh = audit_node(t, n->r, n, depth + 1);
@@ -299,7 +314,7 @@ static void check_foreach(int t, int rev, int stop_at, int stop_val)
         if (vlogv[i].ord == CSTL_BINTREE_VISIT_ORDER_MID || vlogv[i].ord == CSTL_BINTREE_VISIT_ORDER_LEAF) {
             int k = vlogv[i].e->key;
             mids++;
-            if (have && (rev ? k > prev : k < prev))
+            if (have && ((rev != (mt[t].ord->dir < 0)) ? k > prev : k < prev))
                 VIOL(t, "foreach_order", "tree %d: %s traversal is not monotone at visit %d", t, rev ? "reverse" : "forward", i);
             prev = k; have = 1;
         }
@@ -345,7 +360,7 @@ static void nested_clear(void)
 static void clear_cb(void *obj, void *priv)
 {
     CB_ENTER();
-    struct telem *e = obj;
+    struct telem *e = ELM(obj);
     int id = -1;
     if (reentrant) nested_clear();
     if (priv != (void *)&clr_id[0]) { nclr = -1000000; }       /* the outer callback's own private pointer must still arrive */
@@ -488,10 +503,17 @@ static void t_exec(const plan_t *p)
     next_id = 0; maxreach = 0;
     memset(bt, (int)(unsigned char)p->cfg[CF_JUNK], sizeof bt); memset(rb, (int)(unsigned char)p->cfg[CF_JUNK], sizeof rb);
     for (i = 0; i < NT; i++) tkind[i] = (int)(p->cfg[CF_STREAM] >> (12 + i) & 1);
-    cstl_bintree_init(&bt[0], cmp_key, NULL, node_off(0));
-    cstl_bintree_init(&bt[1], cmp_key, NULL, node_off(1));
-    cstl_rbtree_init(&rb[0], cmp_key, NULL, rbmember_off(2));
-    cstl_rbtree_init(&rb[1], cmp_key, NULL, rbmember_off(3));
+    switch (p->cfg[CF_STREAM] >> 16 & 7) {
+    default: g_hnd = 0; break;
+    case 1: case 2: g_hnd = sizeof(struct telem); PROBE("handles_past_the_node_members"); break;
+    case 3: g_hnd = (size_t)0 - (((size_t)1 << 31) + 24); PROBE("handles_2^31_before_the_node_members"); break;
+    case 4: g_hnd = (size_t)0 - (((size_t)1 << 32) + 24); PROBE("handles_2^32_before_the_node_members"); break;
+    }
+    for (i = 0; i < NT; i++) { tords[i].dir = (p->cfg[CF_STREAM] >> (20 + i) & 1) ? -1 : 1; mt[i].ord = &tords[i]; }
+    cstl_bintree_init(&bt[0], cmp_key, &tords[0], node_off(0) - g_hnd);
+    cstl_bintree_init(&bt[1], cmp_key, &tords[1], node_off(1) - g_hnd);
+    cstl_rbtree_init(&rb[0], cmp_key, &tords[2], rbmember_off(2) - g_hnd);
+    cstl_rbtree_init(&rb[1], cmp_key, &tords[3], rbmember_off(3) - g_hnd);
     probe.magic = MAGIC; probe.tail = ~MAGIC; probe.id = -1; probe.tree = -1;
     reentrant = 0;
     if (p->cfg[CF_STREAM] >> 8 & 1) {
@@ -526,14 +548,14 @@ static void t_exec(const plan_t *p)
             if (hinted) {
                 /* the only documented hint: the parent reported by find for this key just before */
                 probe.key = key;
-                if (is_rb(t)) TRY(ret = cstl_rbtree_find(&rb[t - 2], &probe, &par));
-                else TRY(ret = cstl_bintree_find(BT(t), &probe, &par));
+                if (is_rb(t)) TRY(ret = cstl_rbtree_find(&rb[t - 2], HND(&probe), &par));
+                else TRY(ret = cstl_bintree_find(BT(t), HND(&probe), &par)); ret = ELMN(ret);
                 if (g_aborted) VIOL(t, "abort", "find aborted");
                 PROBE("insert_hinted");
             }
             if (is_rb(t) && p->mode == 2) g_cur_prop = "C02";   /* crash attribution in the red-black check */
-            if (is_rb(t)) TRY(cstl_rbtree_insert(&rb[t - 2], e, (void *)par));
-            else TRY(cstl_bintree_insert(BT(t), e, (void *)par));
+            if (is_rb(t)) TRY(cstl_rbtree_insert(&rb[t - 2], HND(e), (void *)par));
+            else TRY(cstl_bintree_insert(BT(t), HND(e), (void *)par));
             g_cur_prop = prop_of(t);
             if (g_aborted) VIOL(t, "abort", "insert aborted");
             m->e[m->n++] = e;
@@ -543,8 +565,8 @@ static void t_exec(const plan_t *p)
         case T_FIND: {
             int held = 0;
             probe.key = key;
-            if (is_rb(t)) TRY(ret = cstl_rbtree_find(&rb[t - 2], &probe, &par));
-            else TRY(ret = cstl_bintree_find(BT(t), &probe, &par));
+            if (is_rb(t)) TRY(ret = cstl_rbtree_find(&rb[t - 2], HND(&probe), &par));
+            else TRY(ret = cstl_bintree_find(BT(t), HND(&probe), &par)); ret = ELMN(ret);
             if (g_aborted) VIOL(t, "abort", "find aborted");
             for (i = 0; i < m->n; i++) if (m->e[i]->key == key) held++;
             if (held == 0) {
@@ -571,8 +593,8 @@ static void t_exec(const plan_t *p)
             }
             for (i = 0; i < m->n; i++) if (m->e[i]->key == key) held++;
             /* classify the node the library will pick (same find) */
-            if (is_rb(t)) TRY(victim = cstl_rbtree_find(&rb[t - 2], &probe, NULL));
-            else TRY(victim = cstl_bintree_find(BT(t), &probe, NULL));
+            if (is_rb(t)) TRY(victim = cstl_rbtree_find(&rb[t - 2], HND(&probe), NULL));
+            else TRY(victim = cstl_bintree_find(BT(t), HND(&probe), NULL)); victim = ELMN(victim);
             if (victim != NULL && simheap_is_live(victim) && held) {
                 const struct cstl_bintree_node *n = node_of(t, (struct telem *)victim);
                 if (n->p == NULL) PROBE("erase_root");
@@ -582,8 +604,8 @@ static void t_exec(const plan_t *p)
                 else PROBE("erase_two_children_succ_deeper");
             }
             if (is_rb(t) && p->mode == 2) g_cur_prop = "C02";
-            if (is_rb(t)) TRY(ret = cstl_rbtree_erase(&rb[t - 2], &probe));
-            else TRY(ret = cstl_bintree_erase(BT(t), &probe));
+            if (is_rb(t)) TRY(ret = cstl_rbtree_erase(&rb[t - 2], HND(&probe)));
+            else TRY(ret = cstl_bintree_erase(BT(t), HND(&probe))); ret = ELMN(ret);
             g_cur_prop = prop_of(t);
             if (g_aborted) VIOL(t, g_aborted == 2 ? "assert" : "abort", "erase aborted");
             if (held == 0) {
@@ -658,6 +680,7 @@ static void t_exec(const plan_t *p)
                 for (j = 0; j < m->n; j++) m->e[j]->tree = t;
                 for (j = 0; j < mu->n; j++) mu->e[j]->tree = u;
                 j = tkind[t]; tkind[t] = tkind[u]; tkind[u] = j;
+                { struct tord *to = m->ord; m->ord = mu->ord; mu->ord = to; if (m->ord->dir != mu->ord->dir) PROBE("swap_trees_that_order_differently"); }
                 if (tkind[t] != tkind[u]) PROBE("swap_different_offsets");
             }
             PROBE("swap");
@@ -713,6 +736,24 @@ static void t_gen(prng_t *r, int mode, plan_t *p)
     }
     int cur = 0, dir = 1;
 
+    if (mode != 2 && prng_chance(r, 1, 60)) {
+        /* a comb: an unbalanced binary tree whose spine is 130-220 nodes long and where every spine node has a child on
+         * the other side (the worst case for anything that keeps "the siblings still to do" in a fixed-size array),
+         * in either orientation; walked, measured, cleared, refilled */
+        int pairs = 130 + (int)prng_below(r, 90), left = (int)prng_below(r, 2), k;
+        p->cfg[CF_NB] = 1; p->cfg[CF_NR] = 0; p->cfg[CF_KEYS] = 1000; p->cfg[CF_JUNK] = 1 + prng_below(r, 254); p->cfg[CF_MAXN] = 480;
+        p->cfg[CF_CLEARFREES] = prng_below(r, 2); p->cfg[CF_STREAM] = (prng_chance(r, 1, 3) ? prng_below(r, 8) << 16 : 0);
+        for (k = 0; k < pairs; k++) {
+            int spine = left ? 2 * (pairs - k) : 2 * k + 1, leaf = left ? spine + 1 : spine - 1;
+            op_t *o = plan_add(p, T_INSERT); o->a[0] = 0; o->a[1] = (uint64_t)spine; o->a[6] = 1;
+            o = plan_add(p, T_INSERT); o->a[0] = 0; o->a[1] = (uint64_t)leaf; o->a[6] = 1;
+        }
+        { op_t *o = plan_add(p, T_FOREACH); o->a[0] = 0; o->a[2] = prng_below(r, 8); o->a[4] = prng_below(r, 12); o->a[5] = 1; }
+        { op_t *o = plan_add(p, T_HEIGHT); o->a[0] = 0; }
+        { op_t *o = plan_add(p, T_CLEAR); o->a[0] = 0; }
+        for (k = 0; k < 5; k++) { op_t *o = plan_add(p, T_INSERT); o->a[0] = 0; o->a[1] = prng_below(r, 1000); }
+        return;
+    }
     longrun = prng_chance(r, 1, 10);
     small = !longrun && prng_chance(r, 1, 5);
     if (mode == 2) { p->cfg[CF_NB] = 0; p->cfg[CF_NR] = 1 + prng_below(r, 2); }
@@ -722,7 +763,7 @@ static void t_gen(prng_t *r, int mode, plan_t *p)
     p->cfg[CF_MAXN] = longrun ? 100 + prng_below(r, 400) : small ? 2 + prng_below(r, 6) : 6 + prng_below(r, 58);
     p->cfg[CF_CLEARFREES] = mode == 15 ? 1 : prng_below(r, 2);
     stream = (int)prng_below(r, 6);      /* 0,1: random; 2 ascending; 3 descending; 4 zig-zag; 5 few values */
-    p->cfg[CF_STREAM] = (uint64_t)stream | (prng_chance(r, 1, 6) ? 256 : 0) | (prng_chance(r, 1, 3) ? prng_below(r, 16) << 12 : 0);
+    p->cfg[CF_STREAM] = (uint64_t)stream | (prng_chance(r, 1, 6) ? 256 : 0) | (prng_chance(r, 1, 3) ? prng_below(r, 16) << 12 : 0) | (prng_chance(r, 1, 3) ? prng_below(r, 8) << 16 : 0) | (prng_chance(r, 1, 2) ? prng_below(r, 16) << 20 : 0);
     if (stream == 5) p->cfg[CF_KEYS] = 1 + prng_below(r, 3);
     nops = longrun ? 300 + (int)prng_below(r, 1700) : small ? 2 + (int)prng_below(r, 7) : 10 + (int)prng_below(r, 70);
 
